@@ -1237,6 +1237,25 @@ func init() {
 		h := u.hget(st, u.elemHeapName(slt.Elem()), "(Array Int (Array Int "+es+"))")
 		r := u.fresh("contains", sBool)
 		u.assume(st, eq(r, fmt.Sprintf("(exists ((i Int)) (and (<= 0 i) (< i (s_len %s)) (= (select (select %s (s_arr %s)) (sidx %s i)) %s)))", s.T, h, s.T, s.T, v.T)))
+		// a slice literal (whole fixed-size array, at most 8 elements): also state the finite disjunction, which needs no
+		// quantifier instantiation
+		if call, ok := in.(ssa.CallInstruction); ok && len(call.Common().Args) == 2 {
+			if sl, ok := call.Common().Args[0].(*ssa.Slice); ok && sl.Low == nil && sl.High == nil {
+				if pt, ok := sl.X.Type().Underlying().(*types.Pointer); ok {
+					if at, ok := pt.Elem().Underlying().(*types.Array); ok && at.Len() <= 8 {
+						var ds []string
+						for i := int64(0); i < at.Len(); i++ {
+							ds = append(ds, eq(sel(sel(h, sx("s_arr", s.T)), u.sidx(s.T, fmt.Sprint(i))), v.T))
+						}
+						if len(ds) == 0 {
+							u.assume(st, not(r))
+						} else {
+							u.assume(st, eq(r, sx("or", append(ds, "false")...)))
+						}
+					}
+				}
+			}
+		}
 		return []Val{{r, tBool, ""}}, true
 	}
 	models["slices.Index"] = func(fr *Frame, st *State, args []Val, in ssa.Instruction, pos token.Pos) ([]Val, bool) {
